@@ -21,6 +21,8 @@
 //!        SHARED = t;t;..  (each csv) or -     GLYPH = S:x,y x,y ..:e1,e2 | C:n | E
 //!   e2e|...                                      variations::instance on a harness-built font (see e2e_run)
 //!   fx|font|gid|user coords(16.16 raw)|...       variations::instance on a fixture font (see fx_run)
+//!   c2|...   c2f|font|user coords|...            variations::instance on a harness-built / fixture CFF2
+//!                                                variable font (see ../c12_cff2.rs)
 use allsorts::binary::read::ReadScope;
 use allsorts::error::ParseError;
 use allsorts::tables::glyf::{
@@ -38,6 +40,10 @@ use std::panic::{catch_unwind, AssertUnwindSafe};
 
 pub mod e2e {
     include!("../c12_e2e.rs");
+}
+
+pub mod cff2 {
+    include!("../c12_cff2.rs");
 }
 
 // ------------------------------------------------------------------ small helpers
@@ -383,6 +389,8 @@ fn run_inner(input: &str) -> String {
         }
         "e2e" => e2e::e2e_run(&p),
         "fx" => e2e::fx_run(&p),
+        "c2" => cff2::c2_run(&p),
+        "c2f" => cff2::c2f_run(&p),
         _ => "badmode".to_string(),
     }
 }
@@ -944,7 +952,7 @@ fn gen_gd(rng: &mut Rng) -> String {
 }
 
 pub fn gen(rng: &mut Rng) -> String {
-    match rng.below(40) {
+    match rng.below(45) {
         0..=3 => {
             let a = gen_axis(rng);
             format!("cs|{},{},{},{}", gen_coord(rng, a), a.0, a.1, a.2)
@@ -981,7 +989,9 @@ pub fn gen(rng: &mut Rng) -> String {
         29 => gen_ad(rng),
         30..=35 => gen_gd(rng),
         36..=38 => e2e::gen_e2e(rng),
-        _ => e2e::gen_fx(rng),
+        39 => e2e::gen_fx(rng),
+        40..=43 => cff2::gen_c2(rng),
+        _ => cff2::gen_c2f(rng),
     }
 }
 
